@@ -28,7 +28,52 @@ def result_of(f, pv, op, bb):
     return any(o[0] == "call" and o[1] == bb for o in arg_roots(f, pv, op))
 
 
+class _AsOverlap:
+    """runs the C13 rules under R-C16-overlap (keys keep the C13 rule name as prefix)"""
+    def __init__(self, ck):
+        self.ck = ck
+        self.assumptions, self.not_decided, self.notes = [], [], ck.notes
+        self.extra = {}
+
+    def rule(self, *a):
+        pass
+
+    def anchor(self, rule, what, obj):
+        return self.ck.anchor("R-C16-overlap", what, obj)
+
+    def saw(self, f):
+        self.ck.saw(f)
+
+    def floor(self, rule, what, found, floor):
+        self.ck.floor("R-C16-overlap", what, found, floor)
+
+    def _k(self, rule, key):
+        return "%s:%s" % (rule.replace("R-C13-", "C13-"), key)
+
+    def decide(self, rule, key, ok, where="", detail="", facts=None):
+        return self.ck.decide("R-C16-overlap", self._k(rule, key), ok, where, detail, facts)
+
+    def ob(self, rule, key, verdict, where="", detail="", facts=None):
+        return self.ck.ob("R-C16-overlap", self._k(rule, key), verdict, where, detail, facts)
+
+    def refuted(self, rule, key, where="", detail="", facts=None):
+        return self.ck.refuted("R-C16-overlap", self._k(rule, key), where, detail, facts)
+
+    def proved(self, rule, key, where="", detail="", facts=None):
+        return self.ck.proved("R-C16-overlap", self._k(rule, key), where, detail, facts)
+
+    def undecided(self, rule, key, where="", detail="", facts=None):
+        return self.ck.undecided("R-C16-overlap", self._k(rule, key), where, detail, facts)
+
+
 def run(ck, tier):
+    ck.rule("R-C16-overlap", "the lints the JavaScript-facing linter returns do not overlap: harper_core::remove_overlaps keeps a non-overlapping subset (sorted by span start, swept with a running end, elements only dropped) and Linter::lint passes every lint through it before anything else consumes the vector (rule instances of R-C13-subset / -sorted / -sweep / -placement)")
+    try:
+        from . import c13
+        c13.run(_AsOverlap(ck), tier)
+    except Exception as e:
+        import traceback
+        ck.refuted("R-C16-overlap", "internal:%s" % type(e).__name__, "", "rule could not run: %s" % traceback.format_exc()[-600:])
     ck.rule("R-C16-pipeline", "harper_wasm::Linter::lint: Document::new_from_vec(source, parser(language), self.dictionary) -> overlay -> LintGroup::lint(&document) -> restore -> remove_overlaps -> remove_ignored(.., &document) -> problem_text = span.get_content_string(&source) of the same source vector, in this order")
     ck.rule("R-C16-samedoc", "ignore_lint / apply_suggestion build their Document from lint.language.create_parser() and self.dictionary; apply_suggestion applies suggestion.inner at lint.inner.span to the chars of the supplied text and returns them; clear_ignored_lints replaces the set; import_words -> extend_words -> synchronize_lint_dict (guarded only by 'count grew'); synchronize_lint_dict rebuilds dictionary and lint_group and re-merges the saved config")
     ck.rule("R-C16-serde", "wasm Lint/Suggestion/Span and the core types under them derive Serialize+Deserialize without asymmetric attributes; to_json/from_json use serde_json::to_string/from_str")
